@@ -381,7 +381,7 @@ func init() {
 
 	h.Register(&h.Monitor{
 		ID: "C02",
-		Rule: "geometries from the grammar (nine kinds, empty values and members, nested collections incl. empty nested collections; finite coordinates over the full float64 range), features with id in {absent, string, number}, property maps over null/bool/number/string (escapes, unicode, control characters)/arrays/objects to depth 4, bbox absent/4/6 numbers, feature collections of 0..20 features with 0..5 foreign members (names avoid type/bbox/features, include control characters), all through JSON and BSON, plus the helper types geojson.Point..MultiPolygon. " +
+		Rule: "geometries from the grammar (nine kinds, empty values and members, nested collections incl. empty nested collections; finite coordinates over the full float64 range), features with id in {absent, string, number}, property maps over null/bool/number/string (escapes, unicode, control characters)/arrays/objects to depth 4, bbox absent/4/6 numbers, feature collections of 0..20 (rarely 6007..12289, above a megabyte of JSON) features with 0..5 foreign members (names avoid type/bbox/features, include control characters), all through JSON and BSON, plus the helper types geojson.Point..MultiPolygon. " +
 			"non-trivial = at least one vertex or one property; distinct = hash of the marshalled JSON",
 		MinNontrivial: h.Fixed(3000, 2000000),
 		Assumptions: []string{
@@ -487,7 +487,11 @@ func init() {
 					if r.P(1, 10) {
 						fc.Features = nil
 					}
-					for n := r.Intn(21); n > 0; n-- {
+					nf := r.Intn(21)
+					if r.P(1, 100) {
+						nf = []int{6007, 7001, 8191, 9001, 12289}[r.Intn(5)] // thousands of features: more than a megabyte of JSON
+					}
+					for n := nf; n > 0; n-- {
 						fc.Append(genFeature(r))
 					}
 					if r.P(2, 3) {
@@ -531,7 +535,7 @@ func init() {
 						return
 					}
 					if !json.Valid(data) {
-						c.Fail("", "marshalled feature collection is not valid JSON", map[string]interface{}{"case": d(), "json": string(data)})
+						c.Fail("", "marshalled feature collection is not valid JSON", map[string]interface{}{"case": d(), "json": c02trunc(data)})
 						return
 					}
 					if d2, err := fc.MarshalJSON(); err != nil || !bytes.Equal(d2, data) {
@@ -544,15 +548,15 @@ func init() {
 					}
 					c.Evals(3)
 					if err != nil {
-						c.Fail("", "UnmarshalFeatureCollection failed on marshalled output", map[string]interface{}{"case": d(), "err": err.Error(), "json": string(data)})
+						c.Fail("", "UnmarshalFeatureCollection failed on marshalled output", map[string]interface{}{"case": d(), "err": err.Error(), "json": c02trunc(data)})
 						return
 					}
 					if diff := sameFC(fc2); diff != "" {
-						c.Fail("", "feature collection differs after a JSON round trip: "+diff, map[string]interface{}{"case": d(), "json": string(data)})
+						c.Fail("", "feature collection differs after a JSON round trip: "+diff, map[string]interface{}{"case": d(), "json": c02trunc(data)})
 						return
 					}
 					if again, err := json.Marshal(fc2); err != nil || !bytes.Equal(again, data) {
-						c.Fail("", "marshalling the decoded feature collection again is not byte-identical", map[string]interface{}{"case": d(), "first": string(data), "second": string(again)})
+						c.Fail("", "marshalling the decoded feature collection again is not byte-identical", map[string]interface{}{"case": d(), "first": c02trunc(data), "second": c02trunc(again)})
 					}
 					var bdata []byte
 					if pv, st := h.Catch(func() { bdata, err = bson.Marshal(fc) }); pv != nil || err != nil {
@@ -573,6 +577,7 @@ func init() {
 						c.Fail("", "feature collection differs after a BSON round trip: "+diff, d())
 					}
 					c.Nontrivial(h.HashBytes(data))
+					c.Max("bytes of JSON in one feature collection", float64(len(data)), nil)
 					if len(data) < 700 {
 						c.Sample(string(data))
 					}
@@ -580,6 +585,13 @@ func init() {
 			},
 		},
 	})
+}
+
+func c02trunc(b []byte) string {
+	if len(b) > 6000 {
+		return string(b[:3000]) + fmt.Sprintf(" ...(%d bytes)... ", len(b)-6000) + string(b[len(b)-3000:])
+	}
+	return string(b)
 }
 
 // c02helpers round-trips the helper types geojson.Point .. MultiPolygon for geometries of their kind.
